@@ -1,10 +1,28 @@
 #!/bin/bash
-# tools/matrix.sh "<seed names>" "<properties>" [prefix]: run every listed check against every listed seeded tree (VERIF_REPO=/tmp/<prefix>_X).
-cd /verif
-PFX=${3:-mx}
-OUT=/tmp/ev_matrix_$PFX
-mkdir -p $OUT
-for S in $1; do for P in $2; do
-  VERIF_REPO=/tmp/${PFX}_$S VERIF_EVIDENCE_DIR=$OUT/ev nice -n 10 ./check $P > $OUT/$S.$P.txt 2>&1; echo "$S $P exit=$?" >> $OUT/summary.txt
-done; done
+# tools/matrix.sh "<patch files or seeded ids>" "<properties>" [outdir]
+# For every patch: scratch worktree of /repo HEAD under /tmp, apply the patch, run every listed check against it
+# (VERIF_REPO, evidence to the out directory - never to /verif/evidence), remove the worktree.
+# Output: <outdir>/<name>.<Cxx>.txt and <outdir>/summary.txt (one line "<name> <Cxx> exit=<n>" each).
+cd "$(dirname "$0")/.."
+V=$(pwd)
+OUT=${3:-/tmp/ev_matrix}
+PAR=${MATRIX_PAR:-4}
+mkdir -p "$OUT"
+./setup.sh >/dev/null 2>&1
+one() {
+  S=$1; P=$2; W=$3; OUT=$4
+  VERIF_REPO=$W VERIF_EVIDENCE_DIR=$OUT/ev_$S nice -n 5 ./check $P > $OUT/$S.$P.txt 2>&1
+  echo "$S $P exit=$?" >> $OUT/summary.txt
+}
+export -f one
+for item in $1; do
+  if [ -f "$item" ]; then PATCH=$(realpath "$item"); S=$(basename "$item" .diff); else PATCH=$V/seeded/$item/patch.diff; S=$item; fi
+  W=/tmp/mxw_$S
+  git -C /repo worktree remove --force $W >/dev/null 2>&1
+  git -C /repo worktree add -q --detach $W HEAD || { echo "$S worktree failed" >> $OUT/summary.txt; continue; }
+  if ! git -C $W apply "$PATCH"; then echo "$S patch-does-not-apply" >> $OUT/summary.txt; git -C /repo worktree remove --force $W; continue; fi
+  printf "%s\n" $2 | xargs -P $PAR -I{} bash -c "one $S {} $W $OUT"
+  git -C /repo worktree remove --force $W
+  rm -rf $OUT/ev_$S/C*.json
+done
 echo "matrix done" >> $OUT/summary.txt
